@@ -602,7 +602,7 @@ pub fn nontrivial_rule(prop: &str) -> &'static str {
         "C11" => "directed recursion + stale-reference families + random fault-heavy profile; non-trivial = a tree that contained an abort, a postponement or a self-despawning system; distinct = distinct normalised trace shapes among those",
         "C12" => "directed family of all delivery sequences over 4 kinds x idle/busy x alone/interleaved + random same-sender profile; non-trivial = a (sender run, target) pair with >=2 deliveries of which >=1 found the target busy; distinct = distinct normalised trace shapes among those",
         "C13" => "directed recursion family + random many-runs profile; non-trivial = an instance with >=3 runs of which >=1 was a replay of a postponed command; distinct = distinct normalised trace shapes among those",
-        "C14" => "directed accessor family (accessor x value x entity state x calls x caller flavour) + random accessors profile; non-trivial = a non-triggering call while a listener exists, or a body with >=2 triggering calls; distinct = distinct normalised trace shapes among those. Plus the accessor-table stage (coverage.accessor_table_stage): seeded sequences of 5-30 single accessor calls over all 33 public accessor forms on a dedicated world, each judged against the documented (reactions, stored value, return value) table",
+        "C14" => "directed accessor family (accessor x value x entity state x calls x caller flavour) + random accessors profile; non-trivial = a non-triggering call while a listener exists, or a body with >=2 triggering calls; distinct = distinct normalised trace shapes among those. Plus the accessor-table stage (coverage.accessor_table_stage): seeded sequences of 5-30 single accessor calls over 36 public accessor and resource-management forms on a dedicated world, each judged against the documented (reactions, stored value, return value) table",
         "C15" => "directed once-lifetime family + random once profile; non-trivial = a one-off reactor with >=2 trigger applications scheduled for it; distinct = distinct normalised trace shapes among those",
         "C16" => "directed world-reactor histories + partial revocation family + random world-reactors profile; non-trivial = runs of one entity world reactor for >=2 entities in one op, or a partial removal that keeps the local data; distinct = distinct normalised trace shapes among those",
         "C18" => "directed stale-reference family (operation x despawn point, entities and systems) + random stale-references profile; non-trivial = an operation whose target was observed dead when applied or when its reaction was reached; distinct = distinct normalised trace shapes among those",
